@@ -458,11 +458,15 @@ func init() {
 		Assumptions: []string{"equality of digests (FNV-1a 64 of the output bytes / canonical dump of the destination) is taken as equality of results", "probes use ConfigStd.Marshal (sorted map keys), so that results are defined up to bytes", "only the histories actually produced are decided"},
 		MinEvals:    4000, MinEvalsThorough: 100000,
 		Runs: func(string) []*Run {
-			return []*Run{
+			rs := []*Run{
 				{Name: "jit", Flavor: "plain", NBatch: n(16, 61), TimeoutS: n(900, 3000), MaxAttempts: 2},
 				{Name: "vm-optdec", Flavor: "plain", NBatch: n(6, 31), Env: []string{"SONIC_ENCODER_USE_VM=1", "SONIC_USE_OPTDEC=1"}, TimeoutS: n(900, 3000), MaxAttempts: 2},
 				{Name: "sse", Flavor: "plain", NBatch: n(3, 16), Env: []string{"SONIC_MODE=noavx2"}, TimeoutS: n(900, 3000), MaxAttempts: 2},
 			}
+			if tier == "thorough" {
+				rs = append(rs, &Run{Name: "jit126", Flavor: "plain126", NBatch: 31, TimeoutS: 3000, MaxAttempts: 2})
+			}
+			return rs
 		},
 		Post: historyDiff,
 	}
@@ -471,6 +475,7 @@ func init() {
 func init() {
 	c10a := crossDiff("calm", "gc", "gc-sse", "stack", "gc-2procs")
 	c10b := crossDiff("calm-dec", "syncgc")
+	c10c := crossDiff("calm126", "gc126", "stack126")
 	plans["C10"] = &Plan{
 		Level: "exploration",
 		Rule: "the same seeded case list is executed in a calm process and in stressed processes and the per-case digests (encoded text; dump of what it decodes back to; dump of decoded destinations) must be equal. Cases: ConfigStd.Marshal + Unmarshal of the text, and Unmarshal of documents (fresh and pre-populated destinations), over 16 callback types (struct/string/pointer-carrying map keys through TextMarshaler/TextUnmarshaler, json.Marshaler/Unmarshaler with value and pointer receivers, TextMarshaler values, omitzero fields, a struct mixing them with every pointer-carrying field shape) and over the random types of the C01/C03 generators (every opcode family, out-of-line recursion). Every call runs on a fresh goroutine after 0-110 padding frames (entry into generated code at varying distance from the end of a small stack). In stressed processes every callback invoked FROM generated code performs a seeded action: runtime.GC; GC + 3000 allocations of 11 size classes + GC (recycles freed slots); 3000-frame recursion (the stack is copied with generated frames on it); debug.Stack/runtime.Callers/runtime.Stack(all); yield + allocations; hand-off (another goroutine collects twice while this one is parked = stack scan/shrink of a parked goroutine with generated frames); a nested sonic Marshal+Unmarshal (re-entrancy); GC + recursion + churn. " +
@@ -480,7 +485,7 @@ func init() {
 		Runs: func(string) []*Run {
 			gcEnv := []string{"VERIF_C10=gc", "GOGC=1", "GODEBUG=gccheckmark=1,clobberfree=1"}
 			nb := n(4, 16)
-			return []*Run{
+			rs := []*Run{
 				{Name: "calm", Flavor: "plain", NBatch: nb, TimeoutS: n(900, 6000)},
 				{Name: "gc", Flavor: "plain", NBatch: nb, Env: gcEnv, TimeoutS: n(900, 6000)},
 				{Name: "gc-sse", Flavor: "plain", NBatch: n(1, 4), Env: append([]string{"SONIC_MODE=noavx2"}, gcEnv...), TimeoutS: n(900, 6000)},
@@ -489,22 +494,39 @@ func init() {
 				{Name: "calm-dec", Flavor: "plain", Mode: "dec", NBatch: n(2, 8), TimeoutS: n(900, 6000)},
 				{Name: "syncgc", Flavor: "plain", Mode: "dec", NBatch: n(2, 8), Env: []string{"SONIC_SYNC_GC=1", "GODEBUG=clobberfree=1"}, TimeoutS: n(900, 6000)},
 			}
+			if tier == "thorough" {
+				// the other toolchain: another runtime (collector, stack maps, moduledata layout funcdata_go126.go)
+				rs = append(rs,
+					&Run{Name: "calm126", Flavor: "plain126", NBatch: 8, TimeoutS: 6000},
+					&Run{Name: "gc126", Flavor: "plain126", NBatch: 8, Env: gcEnv, TimeoutS: 6000},
+					&Run{Name: "stack126", Flavor: "plain126", NBatch: 8, Env: []string{"VERIF_C10=stack", "GOGC=5"}, TimeoutS: 6000})
+			}
+			return rs
 		},
 		Post: func(v *Verdict, runs []*Run, results map[string][]*BatchResult) {
+			merge := func(x map[string]interface{}) {
+				for k, a := range x {
+					if b, ok := v.Extra[k]; ok {
+						if ai, ok1 := a.(int64); ok1 {
+							if bi, ok2 := b.(int64); ok2 {
+								v.Extra[k] = ai + bi
+								continue
+							}
+						}
+					}
+					v.Extra[k] = a
+				}
+			}
 			c10a(v, runs, results)
 			x := v.Extra
 			v.Extra = nil
 			c10b(v, runs, results)
-			for k, a := range x {
-				if b, ok := v.Extra[k]; ok {
-					if ai, ok1 := a.(int64); ok1 {
-						if bi, ok2 := b.(int64); ok2 {
-							v.Extra[k] = ai + bi
-							continue
-						}
-					}
-				}
-				v.Extra[k] = a
+			merge(x)
+			if tier == "thorough" {
+				x = v.Extra
+				v.Extra = nil
+				c10c(v, runs, results)
+				merge(x)
 			}
 		},
 	}
